@@ -249,3 +249,12 @@ reg(Check("C14", "model_checking",
           engine="E1 detsched", claimed=False,
           parts=[Part("races", SRV, "^TestVerifC14Races$", instr=True, shards=(16, 16), deadline=(300, 3000)),
                  Part("acl", SRV, "^TestVerifC14Acl$", instr=True, gomaxprocs=16, deadline=(300, 2400))]))
+
+reg(Check("C10", "model_checking",
+          "(being extended) online counters = attached foreground sessions on every transition of the acl and p2p searches and at quiescence of every explored schedule of the C14 race scenarios",
+          ["canonical schedule for the searches; deviation-bounded schedules for the races"],
+          text=XS_NOTE, note="presence convergence scenarios pending", technique="explicit-state + stateless model checking of the implementation",
+          engine="E1 detsched + E2 xstate", claimed=False,
+          parts=[Part("acl", SRV, "^TestVerifC10Acl$", instr=True, gomaxprocs=16, deadline=(300, 2400)),
+                 Part("p2p", SRV, "^TestVerifC10P2P$", instr=True, gomaxprocs=16, deadline=(300, 2400)),
+                 Part("races", SRV, "^TestVerifC10Races$", instr=True, shards=(16, 16), deadline=(300, 3000))]))
